@@ -67,6 +67,12 @@ class OriginDomain:
     def external_name(self, q, node): return ExtName(q)
     def lit(self, value, node): return Const(value)
     def make_seq(self, items, node): return Seq(items, "py")
+    def abstract_dict(self, vals, node):
+        """{**d, k: v}: a new dict (one level) whose values are the very objects of d and v"""
+        org = frozenset()
+        for v in vals:
+            org |= org_of(v)
+        return O(org - {"const"} or {"fresh"}, local=True)
     def abstract_seq(self, elem, node): return Seq([elem], "pyabs")
     def join(self, a, b, node, silent=False):
         if isinstance(a, Const) and isinstance(b, Const) and isinstance(a.value, dict) and isinstance(b.value, dict):
@@ -160,6 +166,8 @@ class OriginDomain:
         return recv
     def store_attr(self, recv, name, val, tnode, node):
         base = ast.unparse(tnode.value)
+        self.attr_stores = getattr(self, "attr_stores", [])
+        self.attr_stores.append((base, name, org_of(val), node))
         ps = {o for o in org_of(val) if o.startswith("P:")}
         if ps:
             self.escapes.append((sorted(ps), f"{base}.{name}", self.where(), getattr(node, "lineno", "?")))
@@ -193,6 +201,11 @@ class OriginDomain:
         return FRESH
     def call_external(self, q, args, kwargs, node):
         base = q.split(".")[-1]
+        if q == "builtins.getattr" and len(args) >= 2:
+            nm = args[1].value if isinstance(args[1], Const) else "?"
+            recv_txt = ast.unparse(node.args[0]) if getattr(node, "args", None) else "?"
+            dflt = org_of(args[2]) if len(args) > 2 else frozenset()
+            return O({f"A:{recv_txt}.{nm}"} | {x for x in dflt if x not in ("const",)})
         if base == "nan_to_num":
             c = kwargs.get("copy")
             if isinstance(c, Const) and c.value is False:
